@@ -35,6 +35,7 @@ TRANSPARENT = {
     'std::option::Option::<T>::as_deref', 'std::option::Option::<&T>::cloned',
     'std::option::Option::<&T>::copied', 'std::borrow::Cow::<\'_, B>::into_owned',
     'std::boxed::Box::<T>::new', 'std::str::<impl str>::to_owned',
+    'std::boxed::box_assume_init_into_vec_unsafe', 'std::slice::<impl [T]>::into_vec',
 }
 TRANSPARENT_RX = (
     r"^<.* as std::convert::AsRef<.*>>::as_ref$", r"^<.* as std::ops::Deref>::deref$",
@@ -531,6 +532,11 @@ class Slicer:
                 proj = ''.join(x for x in pl[1:] if x != '*')
                 ups.append((proj, self._rvalue(fn, rv, seen, d, (bi, si))))
         if ups:
+            whole = [uv for proj, uv in ups if proj == '']
+            if whole:
+                # `*place = value` through a reference / box: the pointee is that value (`vec![a, b]` writes its
+                # array into a fresh box this way)
+                return whole[-1]
             return ('updated', v, tuple(ups))
         return v
 
@@ -576,11 +582,41 @@ class Slicer:
             return ('repeat', self.operand(fn, rv['o'], seen, d), rv['n'])
         return ('unknown', rv.get('pp', r))
 
+    def _vec_macro_array(self, fn, call, seen, d):
+        """`vec![a, b, c]` lowers to Box::new_uninit() + a write of the array through a raw pointer derived from the box +
+        box_assume_init_into_vec_unsafe(box): recover the array literal"""
+        pl = op_place(call.args[0])
+        box_locals = set()
+        while pl is not None and len(pl) == 1 and pl[0] not in box_locals:
+            box_locals.add(pl[0])
+            defs = fn.whole_defs(pl[0])
+            if len(defs) == 1 and defs[0][0] == 'stmt' and defs[0][3]['r'] == 'use':
+                pl = op_place(defs[0][3]['o'])
+            else:
+                break
+        ptrs = set()
+        for b in fn.blocks:
+            for st in b['s']:
+                if st[0] == '=' and len(st[1]) == 1 and st[2]['r'] == 'cast':
+                    src = op_place(st[2]['o'])
+                    if src and src[0] in box_locals and len(src) > 1:
+                        ptrs.add(st[1][0])
+        found = []
+        for bi, b in enumerate(fn.blocks):
+            for si, st in enumerate(b['s']):
+                if st[0] == '=' and st[1][0] in ptrs and len(st[1]) > 1 and st[1][1] == '*' and st[2]['r'] == 'agg' and st[2].get('kind') == 'array':
+                    found.append(self._rvalue(fn, st[2], seen, d, (bi, si)))
+        return found[0] if len(found) == 1 else None
+
     def _call_value(self, fn, call, seen, d):
         if call.indirect:
             callee = self.operand(fn, call.fop, seen, d)
             args = tuple(self.operand(fn, a, seen, d) for a in call.args)
             return ('icall', callee, args, (fn.path, call.bb))
+        if call.name and call.name.startswith('std::boxed::box_assume_init_into_vec_unsafe') and call.args:
+            arr = self._vec_macro_array(fn, call, seen, d)
+            if arr is not None:
+                return arr
         if is_transparent(call) and call.args:
             return self.operand(fn, call.args[0], seen, d)
         names = call.names()
